@@ -35,6 +35,7 @@ type genCfg struct {
 	maxNodes    int
 	ineqSuffix  string // appended to the inequality variable's name (run-specific names defeat process-wide caches)
 	ineqOften   bool
+	propWrites  bool // scripts may write their (copied) step properties
 }
 
 var constVals = []interface{}{1.0, 2.0, "x", "y", true, nil, 1.5}
@@ -75,7 +76,7 @@ func genMsgPattern(c *sim.Ctx, keys []string, ineq bool) interface{} {
 	p := map[string]interface{}{}
 	for i := 0; i < n; i++ {
 		k := keys[c.Intn(len(keys), "patkey")]
-		switch c.Intn(10, "patval") {
+		switch c.Intn(11, "patval") {
 		case 0, 1, 2:
 			p[k] = genConst(c)
 		case 3, 4, 5:
@@ -92,6 +93,8 @@ func genMsgPattern(c *sim.Ctx, keys []string, ineq bool) interface{} {
 			}
 		case 9:
 			p[k] = map[string]interface{}{"p": "?v"}
+		case 10:
+			p[k] = []interface{}{1.0}
 		}
 	}
 	return p
@@ -164,11 +167,15 @@ func genAction(c *sim.Ctx, cfg genCfg, names []string, guard bool) *ref.Action {
 			}
 		case k == 12:
 			if cfg.failOps {
-				a.Ops = append(a.Ops, ref.Op{Kind: "retbad"})
+				a.Ops = append(a.Ops, ref.Op{Kind: []string{"retbad", "retbad", "retarr", "retfn", "retdate"}[c.Intn(5, "badkind")]})
 			}
 		case k == 13:
 			if cfg.failOps && !a.Native {
 				a.Ops = append(a.Ops, ref.Op{Kind: "emitbad"})
+			}
+		case k == 15:
+			if cfg.propWrites && !a.Native {
+				a.Ops = append(a.Ops, ref.Op{Kind: "propset"})
 			}
 		case k == 14:
 			if cfg.nullRet || guard {
@@ -338,6 +345,14 @@ func renderJS(a *ref.Action) string {
 			sb.WriteString("return null;\n")
 		case "retbad":
 			sb.WriteString("return 42;\n")
+		case "retarr":
+			sb.WriteString("return [1];\n")
+		case "retfn":
+			sb.WriteString("return function() { return 1; };\n")
+		case "retdate":
+			sb.WriteString("return new Date(0);\n")
+		case "propset":
+			sb.WriteString("_.props.seen = (_.props.seen || 0) + 1; _.props.mid = \"rewritten\";\n")
 		case "tick":
 			sb.WriteString("_.props.tick();\n")
 		case "spin":
@@ -391,7 +406,7 @@ func nativeAction(a *ref.Action) *core.FuncAction {
 				w = map[string]interface{}{}
 			case "throw":
 				return nil, errors.New("boom")
-			case "retbad":
+			case "retbad", "retarr", "retfn", "retdate":
 				return nil, fmt.Errorf("42 (int64) isn't Bindings")
 			case "retnull":
 				return exe, nil
